@@ -31,7 +31,10 @@ def parse_row(cons, fld):
     for text, vals, _d, e in cons:
         vals = set(vals)
         one = next(iter(vals)) if len(vals) == 1 else None
-        if text == "discr(*new_move.piece)":
+        if text == "discr(*new_move.piece)" and one is None:
+            if vals != {"Pawn", "King", "Queen", "Rook", "Bishop", "Knight"}:
+                left.append(("happens only when the moving piece is one of", sorted(map(str, vals))))
+        elif text == "discr(*new_move.piece)":
             who, kind = "mover", one
         elif text.startswith("discr((*new_move.piece as ") and text.endswith(").0)"):
             colour = one
